@@ -182,6 +182,10 @@ def format_context(format_str):
             within_field = True
 
             ind += 1
+            if ind == len(format_str):
+                raise LenaValueError(
+                    "unbalanced braces in '{}'".format(format_str)
+                )
             c = format_str[ind]
         if within_field:
             new_arg = []
@@ -193,6 +197,10 @@ def format_context(format_str):
                     break
                 new_arg.append(c)
                 ind += 1
+                if ind == len(format_str):
+                    raise LenaValueError(
+                        "unbalanced braces in '{}'".format(format_str)
+                    )
                 c = format_str[ind]
     format_str = ''.join(new_str)
     args = new_args
